@@ -49,6 +49,8 @@ object_t *find_object_by_name(const char *);
 void move_object(object_t *, object_t *);
 void destruct_object(object_t *);
 void reset_destruct_object_limits();
+void save_object_limits(int *load_depth, object_t **restricted);
+void restore_object_limits(int load_depth, object_t *restricted);
 void destruct2(object_t *);
 void remove_destructed_objects(void);
 
